@@ -499,17 +499,29 @@ impl<'a> JSONValidator<'a> {
   }
 
   #[cfg(feature = "additional-controls")]
-  fn validate_hex_control(&mut self, bytes: &[u8], is_lowercase: bool) -> visitor::Result<Error> {
+  fn validate_hex_control(
+    &mut self,
+    bytes: &[u8],
+    case: crate::validator::control::HexCase,
+  ) -> visitor::Result<Error> {
+    use crate::validator::control::HexCase;
+
     if let Value::String(s) = &self.json {
       match hex::decode(s) {
         Ok(decoded_bytes) => {
-          if decoded_bytes == bytes {
+          // .hexlc / .hexuc fix the letter case of the encoding (RFC 9741)
+          let matches_case = match case {
+            HexCase::Any => true,
+            HexCase::Lower => !s.chars().any(|c| c.is_ascii_uppercase()),
+            HexCase::Upper => !s.chars().any(|c| c.is_ascii_lowercase()),
+          };
+          if decoded_bytes == bytes && matches_case {
             // Validation succeeded
           } else {
-            let expected_encoding = if is_lowercase {
-              hex::encode(bytes)
-            } else {
+            let expected_encoding = if let HexCase::Upper = case {
               hex::encode_upper(bytes)
+            } else {
+              hex::encode(bytes)
             };
             self.add_error(format!(
               "string \"{}\" does not match expected hex encoding \"{}\"",
@@ -2587,9 +2599,15 @@ impl<'a> Visitor<'a, '_, Error> for JSONValidator<'a> {
               ControlOperator::B64C => self.validate_b64_control(&actual_bytes, true, false),
               ControlOperator::B64USLOPPY => self.validate_b64_control(&actual_bytes, false, true),
               ControlOperator::B64CSLOPPY => self.validate_b64_control(&actual_bytes, true, true),
-              ControlOperator::HEX => self.validate_hex_control(&actual_bytes, false),
-              ControlOperator::HEXLC => self.validate_hex_control(&actual_bytes, true),
-              ControlOperator::HEXUC => self.validate_hex_control(&actual_bytes, true),
+              ControlOperator::HEX => {
+                self.validate_hex_control(&actual_bytes, crate::validator::control::HexCase::Any)
+              }
+              ControlOperator::HEXLC => {
+                self.validate_hex_control(&actual_bytes, crate::validator::control::HexCase::Lower)
+              }
+              ControlOperator::HEXUC => {
+                self.validate_hex_control(&actual_bytes, crate::validator::control::HexCase::Upper)
+              }
               _ => {
                 self.add_error(format!(
                   "unsupported byte string data type for JSON validation with control {}, got {}",
@@ -2619,9 +2637,15 @@ impl<'a> Visitor<'a, '_, Error> for JSONValidator<'a> {
             ControlOperator::B64C => self.validate_b64_control(value, true, false),
             ControlOperator::B64USLOPPY => self.validate_b64_control(value, false, true),
             ControlOperator::B64CSLOPPY => self.validate_b64_control(value, true, true),
-            ControlOperator::HEX => self.validate_hex_control(value, false),
-            ControlOperator::HEXLC => self.validate_hex_control(value, true),
-            ControlOperator::HEXUC => self.validate_hex_control(value, true),
+            ControlOperator::HEX => {
+              self.validate_hex_control(value, crate::validator::control::HexCase::Any)
+            }
+            ControlOperator::HEXLC => {
+              self.validate_hex_control(value, crate::validator::control::HexCase::Lower)
+            }
+            ControlOperator::HEXUC => {
+              self.validate_hex_control(value, crate::validator::control::HexCase::Upper)
+            }
             _ => {
               self.add_error(format!(
                 "unsupported byte string data type for JSON validation with control {}, got {}",
@@ -2646,9 +2670,15 @@ impl<'a> Visitor<'a, '_, Error> for JSONValidator<'a> {
             ControlOperator::B64C => self.validate_b64_control(value, true, false),
             ControlOperator::B64USLOPPY => self.validate_b64_control(value, false, true),
             ControlOperator::B64CSLOPPY => self.validate_b64_control(value, true, true),
-            ControlOperator::HEX => self.validate_hex_control(value, false),
-            ControlOperator::HEXLC => self.validate_hex_control(value, true),
-            ControlOperator::HEXUC => self.validate_hex_control(value, true),
+            ControlOperator::HEX => {
+              self.validate_hex_control(value, crate::validator::control::HexCase::Any)
+            }
+            ControlOperator::HEXLC => {
+              self.validate_hex_control(value, crate::validator::control::HexCase::Lower)
+            }
+            ControlOperator::HEXUC => {
+              self.validate_hex_control(value, crate::validator::control::HexCase::Upper)
+            }
             _ => {
               self.add_error(format!(
                 "unsupported byte string data type for JSON validation with control {}, got {}",
